@@ -6,6 +6,7 @@ import (
 	"errors"
 	"fmt"
 	goat "github.com/avos-io/goat"
+	"runtime"
 	"sync"
 	"testing"
 	"time"
@@ -627,3 +628,118 @@ func execC07Open(t *testing.T, c C07Open) (v Verdict) {
 }
 
 func TestC07Open(t *testing.T) { checkProp(t, "C07", "during-open", genC07Open, execC07Open) }
+
+// ---- cancelling a stream whose other goroutine is busy sending --------------------------------
+//
+// The API allows one goroutine to send while another receives (and cancels). Here the sender never pauses, so the
+// cancellation always lands while a SendMsg is being entered, is inside the transport, or is returning.
+
+type C07SendRace struct {
+	Streams int  `json:"streams"`
+	Spin    int  `json:"spin"` // scheduler yields between starting the senders and the cancellation
+	Stats   bool `json:"stats,omitempty"`
+	Ser     bool `json:"ser"`
+}
+
+func genC07SendRace(t *rapid.T) C07SendRace {
+	return C07SendRace{Streams: rapid.IntRange(1, 3).Draw(t, "streams"), Spin: rapid.IntRange(0, 60).Draw(t, "spin"),
+		Stats: rapid.IntRange(0, 2).Draw(t, "stats") == 0, Ser: rapid.Bool().Draw(t, "ser")}
+}
+
+func execC07SendRace(t *testing.T, c C07SendRace) (v Verdict) {
+	type obs struct {
+		hctx       context.Context
+		sendEnded  bool
+		sendErr    error
+		recvErr    error
+		recvEnded  bool
+		sentBefore int
+	}
+	o := make([]*obs, c.Streams)
+	for i := range o {
+		o[i] = &obs{}
+	}
+	var mu sync.Mutex
+	res := kit.Bubble(t, func() {
+		svc := kit.NewSvc()
+		svc.Stream("sr", true, true, func(s grpcServerStream) error {
+			first, err := kit.RecvBytes(s)
+			if err != nil || len(first) == 0 {
+				return err
+			}
+			mu.Lock()
+			o[int(first[0])].hctx = s.Context()
+			mu.Unlock()
+			for {
+				if _, err := kit.RecvBytes(s); err != nil {
+					return status.FromContextError(s.Context().Err()).Err()
+				}
+			}
+		})
+		w := kit.NewWorld(kit.Topo{Kind: "direct", Serialize: c.Ser, Clients: 1, Stats: c.Stats}, svc, nil, nil)
+		ctx, cancel := context.WithCancel(context.Background())
+		defer cancel()
+		var wg sync.WaitGroup
+		for i := 0; i < c.Streams; i++ {
+			i := i
+			cs, err := w.Conn(0).NewStream(ctx, kit.StreamDescFor(kit.KindBidi), kit.FullMethod("sr"))
+			if err != nil {
+				v.failf("open: %v", err)
+				return
+			}
+			_ = kit.SendBytes(cs, []byte{byte(i)})
+			wg.Add(2)
+			go func() { // the sender: never pauses
+				defer wg.Done()
+				for k := 0; k < 1000000; k++ {
+					if err := kit.SendBytes(cs, []byte{byte(i), byte(k)}); err != nil {
+						mu.Lock()
+						o[i].sendEnded, o[i].sendErr, o[i].sentBefore = true, err, k
+						mu.Unlock()
+						return
+					}
+				}
+			}()
+			go func() { // the receiver
+				defer wg.Done()
+				_, err := kit.RecvBytes(cs)
+				mu.Lock()
+				o[i].recvEnded, o[i].recvErr = true, err
+				mu.Unlock()
+			}()
+		}
+		for k := 0; k < c.Spin; k++ {
+			runtime.Gosched()
+		}
+		cancel() // (an explicit cancel only: a bubble's clock stands still while the senders are busy, so a deadline would never fire)
+		kit.Settle()
+		wg.Wait()
+		kit.Settle()
+		mu.Lock()
+		for i, x := range o {
+			if x.hctx != nil && x.hctx.Err() == nil {
+				v.failf("stream %d: the caller's context has ended, its handler's context is still live", i)
+			}
+		}
+		mu.Unlock()
+		w.Shutdown()
+		kit.Settle()
+	})
+	if res.Panic != nil {
+		v.failf("panic: %v\n%s", res.Panic, res.Stack)
+	}
+	for i, x := range o {
+		if !x.sendEnded {
+			v.failf("stream %d: the sending goroutine never got an error after the context had ended", i)
+		}
+		if !x.recvEnded {
+			v.failf("stream %d: the receive pending at the cancellation never returned", i)
+		} else if x.recvErr == nil || !isCtxFlavoured(kit.Observe(x.recvErr), false) {
+			v.failf("stream %d: the receive pending at the cancellation returned %v, want the context's status", i, x.recvErr)
+		}
+	}
+	v.Info = kit.CaseInfo{Labels: []string{"send-race"}, NonTrivial: true, Key: fmt.Sprintf("%+v", c), Sample: c}
+	return
+}
+
+func TestC07SendRace(t *testing.T) { checkProp(t, "C07", "send-race", genC07SendRace, execC07SendRace) }
